@@ -1,5 +1,6 @@
 import OsacaVerif.Driver.YCodec
 import OsacaVerif.Model.LCD
+import OsacaVerif.Model.CpMark
 import OsacaVerif.Spec.Deps
 /- driver ops of C03, C04, C05, C06, C14: kernels arrive as one Y value (see harness/dgenc.py) -/
 namespace OsacaVerif.Driver.DGraph
@@ -101,6 +102,13 @@ def handle (r : Req) : Option String :=
     | some k =>
       let es := create (isaOf isa) (fieldS fd == "1") { stlf := ratOf stlf, pIdx := ratOf pidx } k
       some (showRat (LCD.cpTotal k es))
+    | none => some "bad-arg"
+  | "cpmarks", [isa, fd, stlf, pidx, k] =>
+    -- the marked lines of the repaired `get_critical_path` with their `latency_cp`: `line:value,…`
+    match kernelOf k with
+    | some k =>
+      let es := create (isaOf isa) (fieldS fd == "1") { stlf := ratOf stlf, pIdx := ratOf pidx } k
+      some (",".intercalate ((LCD.cpMarks k es).map fun (l, v) => toString l ++ ":" ++ showRat v))
     | none => some "bad-arg"
   | "speclongest", [infos, edges] =>
     -- infos: L[L[line, lat, loadStage]...]   edges: L[L[src, dst, w]...]  (instruction nodes only)
